@@ -35,12 +35,12 @@ WITNESS['server-recreates-closed-stream'] = dict(nstreams=1, qcap=2, steps=[
     ('Close', 'B', 1), ('WCas', 'B', 1), ('WSend', 'B', 1), ('Deliver', 'A', 0), ('Close', 'A', 1), ('Deliver', 'B', 0)])
 
 
-def mc_files(streams, qcap, ma, mb, mexh, prune, invs):
+def mc_files(streams, qcap, ma, mb, mexh, prune, invs, mbad=0):
     wrapper = '---- MODULE MC_Session ----\nEXTENDS Session\n' \
               'mcMaxMsgs == [e \\in {"A","B"} |-> IF e = "A" THEN %d ELSE %d]\n====\n' % (ma, mb)
-    cfg = 'SPECIFICATION Spec\nCONSTANTS\n  Streams = {%s}\n  QCap = %d\n  MaxMsgs <- mcMaxMsgs\n  MaxExh = %d\n%s\nVIEW View\n' \
+    cfg = 'SPECIFICATION Spec\nCONSTANTS\n  Streams = {%s}\n  QCap = %d\n  MaxMsgs <- mcMaxMsgs\n  MaxExh = %d\n  MaxBad = %d\n%s\nVIEW View\n' \
           'INVARIANTS %s\nPROPERTIES Monotone\nCHECK_DEADLOCK FALSE\n' % (
-              ', '.join(map(str, streams)), qcap, mexh, 'CONSTRAINT NoKnownFinding' if prune else '', invs)
+              ', '.join(map(str, streams)), qcap, mexh, mbad, 'CONSTRAINT NoKnownFinding' if prune else '', invs)
     return {'MC_Session.tla': wrapper, 'mc.cfg': cfg}
 
 
@@ -251,6 +251,16 @@ def run(prop, tier, seed, replay=None):
         ' kf=%s' % un.trace[-1][1].get('kf') if un.violation and un.trace else '')
 
     ck.log('design counterexample run done')
+    # ---- 2b. design check with the fault "corrupt queue element" (PutBad): the ledger / order / close invariants hold on the
+    # design when the element is skipped; the real-code side of this fault is the staged scenario corrupt-offset/*
+    bad = tlc.run('MC_Session', 'mc.cfg', timeout=600, extra_files=mc_files([1], 2, 2, 0, 1, True, INVS, mbad=1))
+    if bad.ok:
+        ck.add('states', bad.distinct)
+        ck.cov['tlc_configs'].append('Session streams=[1] qcap=2 msgs=(2,0) exhaust<=1 corrupt elements<=1 (fault PutBad), finding classes '
+                                     'pruned: %d states, depth %d, invariants %s hold (design only; bound to the code by the staged '
+                                     'scenario corrupt-offset/behind-good-message)' % (bad.distinct, bad.depth, INVS))
+    else:
+        ck.notes.append('design run with the corrupt-element fault did not complete cleanly: %s' % (bad.violation or bad.error or bad.out[-200:]))
     # ---- 3. known findings: replay the witnesses on the real code
     wscheds = []
     for slug, wit in WITNESS.items():
